@@ -60,7 +60,7 @@ CLAIMED = {
         "every get_(empty_)related_viewgrams request of the objective function's routines passes the TOF index of the indices it iterates "
         "over explicitly (the default argument overwrites it with 0) and all requests get_viewgrams() makes for one call name the same "
         "TOF index (defects F15 and F16, both fixed). All formula clauses of C05 (value, "
-        "gradient, sensitivity, Hessian, subset sums, penalised = unpenalised - prior) are numerical and NOT decided.",
+        "gradient, sensitivity, Hessian, subset sums, penalised = unpenalised - prior) are numerical and NOT decided. Also decided: every routine that reads measured viewgrams itself zeroes the end planes of segment 0 under zero_seg0_end_planes (F55, fixed).",
         technique="static analysis: finite-domain abstract interpretation of flag typestate over clang CFG; setter-invalidation "
         "must-pass-through with idiom ordering",
     ),
@@ -93,7 +93,7 @@ CLAIMED = {
         "object's inputs is rebuilt by every successful set_up (the inputs can be changed in place between two calls, so a "
         "'nothing changed' shortcut would leave stale factors); apply/undo of a whole data set visit every (view/segment group, TOF bin) "
         "once (one enumeration, one TOF loop, read-normalise-write per turn); bin-by-bin updates use exactly get_bin_efficiency(bin) "
-        "(for the kinds the property names). Efficiency values, "
+        "(for the kinds the property names); a set_up that fails after the base class set_up clears the set-up flag again and does not compare the stored geometry with the argument it was just assigned from (F56, F57, fixed). Efficiency values, "
         "ACF = exp(line integral), positivity are NOT decided.",
         technique="static analysis: sibling (dual) agreement of effect summaries with data-flow source signatures, must-pass-through, "
         "self-dependence of member updates in set_up",
@@ -140,7 +140,7 @@ CLAIMED = {
         "comparison); set_up of the ray-tracing and the interpolation matrix never assigns a setting (parsing key / set_* member), so "
         "a later set_up starts from what the user asked for (defects F19, F20, fixed); the ray-tracing matrix's setters clear already_setup and rows "
         "are only computed after set_up; for each of the 16 symmetry operations the bin-level and view/segment-level maps agree branch by "
-        "branch (affine summaries). every constructor path of the symmetries object ends with `90-degree view symmetry on => 180-degree view symmetry on` for all settings of the switches (abstract interpretation of member initialisers and body; the finder and the operation lookup rely on it). NOT decided: that the chosen symmetry operation maps the basic bin back to the requested bin, "
+        "branch (affine summaries). every constructor path of the symmetries object ends with `90-degree view symmetry on => 180-degree view symmetry on` for all settings of the switches (abstract interpretation of member initialisers and body; the finder and the operation lookup rely on it); no function in the row-computing files keeps state in a static or thread-local variable; the equality that lets set_up keep its cache compares every member the coordinate getters read and never overwrites earlier comparison results (F52, F54, fixed); at every construction site of a symmetry operation the plane shift is planes-per-axial-position times the axial shift (F53, fixed). NOT decided: that the chosen symmetry operation maps the basic bin back to the requested bin, "
         "agreement with the image transformation, non-negativity / in-image / no duplicate voxel (ray-tracing numerics).",
         technique="static analysis: bit-field layout algebra, must-pass-through ordering on clang CFG, must-facts at early returns, "
         "affine path summaries compared between sibling functions",
@@ -199,7 +199,7 @@ CLAIMED = {
         "first and the second detector's entry; make_fan_data_remove_gaps_help and set_fan_data_add_gaps_help are duals over one index map "
         "(identical loops, get_det_pair_for_bin call, virtual-crystal gap predicates and index compaction; transfer reversed, symmetric fan "
         "entry written); FanProjData stores each detector pair once (symmetric storage chosen by operator()) and every other member "
-        "function uses raw subscripts of the underlying array only for index ranges. NOT decided: fixed point and KL descent of the ML iterations (numerical).",
+        "function uses raw subscripts of the underlying array only for index ranges; the efficiency iteration updates in place, one detector at a time, from the current efficiencies (structural part of the KL descent); half the fan size covers both ends of the tangential range (known finding F60); format strings of the ML estimation are well-formed (F61, fixed). NOT decided: fixed point and KL descent of the ML iterations (numerical).",
         technique="static analysis: sibling/dual agreement of branches and of paired functions over canonical keys with role renaming",
     ),
     "C09": dict(
@@ -268,7 +268,7 @@ CLAIMED = {
         "upper bound; its start depends on the boundary condition) - so no coefficient is dropped and nothing outside the kernel is read; "
         "inverse_fourier / inverse_fourier_1d are the forward transform with the opposite sign followed by division by the number of "
         "elements; the padded-DFT filter moves data into and out of the periodic padded array only through the modulo map and its dual "
-        "(copy in, filter in place, copy out, on every path). NOT decided: every numerical identity of C19 (inverse of forward, real/complex agreement, Parseval, padded-DFT route = "
+        "(copy in, filter in place, copy out, on every path); every call between the transforms passes an expression of the caller's sign for the callee's sign parameter (found by data flow from the exponent), never the default. NOT decided: every numerical identity of C19 (inverse of forward, real/complex agreement, Parseval, padded-DFT route = "
         "direct convolution, separability, mean preservation).",
         technique="static analysis: loop-bound shape rule per subscript axis over canonical keys with single-definition locals inlined; "
         "resolved-callee/argument check of the inverse transforms",
@@ -284,7 +284,7 @@ CLAIMED = {
         "enumerator (preserve_sum unscaled, preserve_values product of all zooms, preserve_projections product of the zooms except x); the "
         "in-place and parameter-taking variants delegate to the one implementation with their own arguments in order. The geometry SSRB builds "
         "gives every output segment the ring-difference range and the axial extent (min/max of m reduced over ALL combined input segments) "
-        "of the input segments o*n-n/2..o*n+n/2 it combines. NOT decided: that "
+        "of the input segments o*n-n/2..o*n+n/2 it combines; the per-plane zoom takes its shortcut only for equal x- and y-size and numbers the planes of the new image from its own first plane (F58, F59, fixed). NOT decided: that "
         "matching by get_m / get_k puts every input sinogram into the right output sinogram, count conservation, centre of mass, "
         "uniformity (numerical, over runtime data).",
         technique="static analysis: typestate of the output buffer (fresh/accumulate/store) by dominance and must-pass-through, normalised "
